@@ -11,15 +11,21 @@ import threading
 import numpy as np
 from sklearn.base import BaseEstimator
 
-LOG = []          # (kind, tag, row ids)   kind in {"fit", "score"}
+RUNS = {}         # run id -> {"log": [(kind, tag, row ids, y)], "next": int}
 _lock = threading.Lock()
-_next_tag = [0]
 TAGMOD = 16
 
 
-def reset():
-    LOG.clear()
-    _next_tag[0] = 0
+def new_run():
+    """a fresh log; the id travels as an estimator parameter, so that worker threads left over from an
+    earlier (failed) brew call cannot write into this run's log"""
+    rid = len(RUNS)
+    RUNS[rid] = {"log": [], "next": 0}
+    return rid
+
+
+def log(run):
+    return RUNS[run]["log"]
 
 
 class TagProba(BaseEstimator):
@@ -27,22 +33,23 @@ class TagProba(BaseEstimator):
 
     column 0 of X must be the row id, column 1 the informative integer feature."""
 
-    def __init__(self, sign=1):
+    def __init__(self, sign=1, run=0):
         self.sign = sign
+        self.run = run
 
     def fit(self, X, y):
         with _lock:
             if not hasattr(self, "tag_"):
-                self.tag_ = _next_tag[0]
-                _next_tag[0] += 1
+                self.tag_ = RUNS[self.run]["next"]
+                RUNS[self.run]["next"] += 1
                 self.n_fit_ = 0
             self.n_fit_ += 1
-            LOG.append(("fit", self.tag_, X[:, 0].astype(np.int64).tolist(), np.asarray(y).tolist()))
+            RUNS[self.run]["log"].append(("fit", self.tag_, X[:, 0].astype(np.int64).tolist(), np.asarray(y).tolist()))
         return self
 
     def _score(self, X):
         with _lock:
-            LOG.append(("score", self.tag_, X[:, 0].astype(np.int64).tolist(), None))
+            RUNS[self.run]["log"].append(("score", self.tag_, X[:, 0].astype(np.int64).tolist(), None))
         return self.sign * X[:, 1] * TAGMOD + self.tag_
 
     def predict_proba(self, X):
@@ -58,10 +65,10 @@ class TagDecision(TagProba):
     predict_proba = None
 
 
-def training_rows(tag, max_iter):
+def training_rows(run, tag):
     """row ids handed to Model.fit for the instance `tag`: the first scoring call (the training loop scores
     all training rows right after the first estimator.fit)"""
-    for kind, t, ids, _ in LOG:
+    for kind, t, ids, _ in RUNS[run]["log"]:
         if kind == "score" and t == tag:
             return ids
     return None
